@@ -414,18 +414,23 @@ def run_units(chunk):
     return [unit(u) for u in chunk]
 
 
-def units_for(mode, nmax, kmax=3):
+def rep_masks(n):
+    # representative raising subsets for the one size beyond the all-subsets bound
+    return sorted({0, (1 << n) - 1, sum(1 << i for i in range(0, n, 2)), 1 << (n // 2)})
+
+
+def units_for(mode, nmax, extra_n=None, kmax=3):
     us = []
     for branch in ('window', 'all'):
-        for n in range(0, nmax + 1):
+        for n in list(range(0, nmax + 1)) + ([extra_n] if extra_n else []):
             for k in range(1, kmax + 1):
-                for mask in range(1 << n):
+                for mask in (range(1 << n) if n <= nmax else rep_masks(n)):
                     us.append((branch, mode, n, k, mask))
     return us
 
 
-def exhaustive_items(mode, nmax, name):
-    us = units_for(mode, nmax)
+def exhaustive_items(mode, nmax, name, extra_n=None):
+    us = units_for(mode, nmax, extra_n)
     us.sort(key=lambda u: -u[2])
     # big units first, round-robin over the workers
     chunks = [us[i::JOBS * 4] for i in range(JOBS * 4)]
@@ -442,10 +447,12 @@ def exhaustive_items(mode, nmax, name):
             'REAL concurrent.futures.as_completed + Future; completions (which running task, how many at once) '
             'enumerated at every submit, at every point where the consumer would block, and between results')
     return bitem(PROP, name, function='tatsu/parproc/pmap.py:active_pmap.<locals>.executor_pmap (real object from the closure) + task.py:taskproc',
-                 domain=f'payload lists of length 0..{nmax}, max_workers 1..3, both loop branches (windowed refill: executor class is-a '
+                 domain=f'payload lists of length 0..{extra_n or nmax}, max_workers 1..3, both loop branches (windowed refill: executor class is-a '
                         f'ProcessPoolExecutor; submit-everything: any other), every subset of payloads raising a captured exception '
                         f'(ValueError / KeyError matching raises() / TypeError by position), {what}',
-                 bound=f'n<={nmax} payloads, workers<=3, {len(us)} (branch, n, workers, raising subset) units, all schedules of each',
+                 bound=f'n<={nmax} payloads (every raising subset)'
+                       + (f' and n={extra_n} with the raising subsets none / all / alternating / one in the middle' if extra_n else '')
+                       + f', workers<=3, {len(us)} (branch, n, workers, raising subset) units, all schedules of each',
                  cases=cases, distinct_nontrivial=distinct,
                  rule='one case = one complete run of the real loop under one schedule, checked for: one result per payload, none '
                       'twice, outcome or captured exception as the function produced it, multiset equal to map(taskproc, tasks), '
@@ -675,8 +682,8 @@ def run(tier, seed, info):
     t0 = Budget(90 if tier == 'quick' else 900)
     quick = tier == 'quick'
     items = []
-    items += exhaustive_items('model', 4 if quick else 5, 'schedules-model')
-    items += exhaustive_items('real', 3 if quick else 4, 'schedules-real-as-completed')
+    items += exhaustive_items('model', 5 if quick else 6, 'schedules-model')
+    items += exhaustive_items('real', 3 if quick else 4, 'schedules-real-as-completed', extra_n=4 if quick else 5)
     items += taskproc_items()
     items += loop_recursion_item()
     items += thread_pool_item(tier, seed)
